@@ -108,6 +108,12 @@ class FitProperties(dict):
         elif key not in FP_RESULTS:
             msg = "Key '{}' not in FP_DEFAULT".format(key)
             raise FitKeyError(msg)
+        if key in FP_DEFAULT:
+            # Store settings by value. Otherwise, in-place changes that
+            # the user later makes to the object passed (e.g. initial
+            # parameters, lists, dictionaries) would silently change the
+            # stored settings without being detected above.
+            value = copy.deepcopy(value)
         super(FitProperties, self).__setitem__(key, value)
 
     def reset(self):
